@@ -1304,6 +1304,12 @@ def dict_method(interp, ref, o: HDict, name, args, kwargs, node):
     if name == "get":
         default = args[1] if len(args) > 1 else kwargs.get("default", Const(None))
         ck = interp.dict_key(args[0])
+        if ck is None and (o.sym or o.each) and ("d", desc(args[0])) not in o.entries and not any(interp.match_key(e[4], args[0], e[1]) for e in o.each):
+            # a symbolic key against partly unknown content: present or not is undetermined
+            if interp.ctx.decide(("in", desc(args[0]), ("dict", ref.oid))):
+                interp.log("dict.get.symbolic", node, obj=ref, key=args[0])
+                return Sym(("dictitem", ("dict", ref.oid), desc(args[0])))
+            return default
         if ck is not None and ck[1] not in o.entries and not o.each and not o.sym:
             return default
         if ck is not None and ck[1] in o.entries:
@@ -1375,7 +1381,10 @@ def str_method(interp, obj, name, args, kwargs, node):
         except Exception:
             pass
     if name == "join":
-        return Sym(("join", s, desc(args[0])), "str")
+        a = args[0]
+        if isinstance(a, Ref) and isinstance(interp.deref(a), HList):
+            return Sym(("join", s, interp.list_desc(interp.deref(a))), "str")
+        return Sym(("join", s, desc(a)), "str")
     if name == "format":
         return Sym(("format", s, tuple(desc(a) for a in args)), "str")
     return Sym(("strcall", s, name, tuple(desc(a) for a in args)), "str")
